@@ -176,4 +176,7 @@ theorem ok_payload (env : Env) (req : Msg) (ht : env.target = .reflected) (hc : 
 example : Admitted {} ⟨⟨8#8, 0, 0, 0x10#8, 0, 0, 0, 0, 0, 0, 0, 5⟩, [], [], [], []⟩ := by
   refine ⟨rfl, rfl, Or.inr rfl⟩
 
+/-- the tie for the header accessors the stamping theorems rest on -/
+theorem tie_header : Gen.headerTieOk = true := by decide
+
 end Rpcx.Props.C04
